@@ -52,7 +52,7 @@ EXPLANATION = (
 RULE = (
     "histories as for C06; sampler cases: trees from common.random_canon_tree on 1-7 data points (S 1-2, grid 2-5), "
     "proposal in {bootstrap, semi-adapted, fully-adapted}, outliers on/off, samplers built directly or through "
-    "run.setup_kernel/setup_samplers, 2-6 particles, thresholds {0, 0.5, 1}, numpy default_rng seeds; `iteration` cases "
+    "run.setup_kernel/setup_samplers, 1-6 particles, thresholds {0, 0.5, 1}, numpy default_rng seeds; `iteration` cases "
     "chain the samplers as the run loop does (subtree or PG, data-point, prune-regraft, relabel_nodes) for 1-3 sweeps.  "
     "Non-trivial: history as for C06; sampler case with >= 2 clones or an outlier in the input tree.")
 TRUSTED = [
@@ -171,7 +171,7 @@ def check_sampler(ctx, case):
     forest, outs = random_canon_tree(rnd, n, outliers=outl)
     tree = build_tree(ds.real, forest, outs)
     alpha = rnd.choice([0.3, 1.0, 2.5])
-    N = rnd.randint(2, 6)
+    N = rnd.choice([1, 1, 2, 2, 3, 4, 5, 6])  # one particle is what `--num-particles 1` runs
     thr = rnd.choice([0.0, 0.5, 1.0])
     rng = np.random.default_rng(case["seed"] % (1 << 32))
     td = make_tree_dist(alpha)
